@@ -18,8 +18,37 @@ LEGS = [(2, 0), (4, 0), (6, 0), (-2, 0), (-4, 0), (0, 2), (0, 4), (0, 6), (0, -2
         (6, 8), (8, 6), (-6, 8), (8, -6), (3, 4), (4, 3), (-4, 3), (3, -4)]
 
 
-def build_network(edges, res, margin, scale=1):
-    """edges: list of geometries (lists of integer points). Nodes are created per distinct end point."""
+def build_network(edges, res, margin, scale=1, past=None):
+    """edges: list of geometries (lists of integer points). Nodes are created per distinct end point.
+    past: (obs, radius, noise) - history: the network first stood 3 units east / 1 unit north of where it is judged, was indexed,
+    prepared and MATCHED ON there; every vertex was then moved in place (setX / setY), the abscissas and weights recomputed,
+    the index and the preparation rebuilt - an edited network is an ordinary network"""
+    if past is not None:
+        from tracklib.core.track import Track
+        from tracklib.core.obs import Obs
+        from tracklib.core.obs_coords import ENUCoords
+        from tracklib.core.obs_time import ObsTime
+        from tracklib.algo.cinematics import computeAbsCurv
+        from tracklib.algo.mapping import mapOnNetwork
+        shifted = [[(p[0] + 3, p[1] + 1) for p in g] for g in edges]
+        net = build_network(shifted, res, margin, scale)
+        obs, radius, noise = past
+        try:
+            mapOnNetwork(Track([Obs(ENUCoords(float(p[0] + 3) * scale, float(p[1] + 1) * scale, 0.0), ObsTime.readUnixTime(1600000000 + 10 * k))
+                                for k, p in enumerate(obs)]), net, gps_noise=noise, search_radius=radius, verbose=False)
+        except (Exception, SystemExit):
+            pass
+        for j, g in enumerate(edges):
+            e = net.getEdge(j + 1)
+            for k, p in enumerate(g):
+                e.geom.getObs(k).position.setX(float(p[0]) * scale)
+                e.geom.getObs(k).position.setY(float(p[1]) * scale)
+            e.geom.removeAnalyticalFeature("abs_curv")
+            computeAbsCurv(e.geom)
+            e.weight = e.geom.length() if (len(edges) + len(edges[0])) % 2 else 2.5 * e.geom.length() + 1.0
+        net.createSpatialIndex(resolution=(res if res is None or scale == 1 else (res[0] * scale, res[1] * scale)), margin=margin, verbose=False)
+        net.prepare(verbose=False)
+        return net
     from tracklib.core.network import Network, Node, Edge
     from tracklib.core.track import Track
     from tracklib.core.obs import Obs
@@ -113,8 +142,11 @@ def run_case(edges, res, margin, obs, radius, noise, scale=1):
     from drivers import prio_common
     prio_common.install_wrappers()
     prio_common.take_logs()
+    edited = (len(obs) + 2 * len(edges) + int(sum(p[0] for p in obs))) % 4 == 0
     with core.quiet():
-        net = build_network(edges, res, margin, scale)
+        net = build_network(edges, res, margin, scale, past=(obs, radius, noise) if edited else None)
+    if edited:
+        e["cfg"]["network"] = "matched on, then edited in place"
     # histories of the priority queues used by prepare() (validated by PrioDictTrace, see run())
     _PQ.extend({"src": "prepare", "steps": st} for st in prio_common.take_logs() if all(x["v"] is not None for x in st))
     t0 = ObsTime(2020, 6, 15, 12, 0, 0).toAbsTime()
